@@ -295,6 +295,56 @@ def run_shard(rec, shard, nshards):
         tags(rec)
     if shard == 1:
         inplace_edit_then_reenumerate(rec)
+    cold_histories(rec, shard)
+
+
+COLD = {"quick": 7, "thorough": 60}      # fresh interpreters per shard
+
+
+def _cold_run(hist, seed, cwd):
+    """one cold-start history in a fresh interpreter -> dump of its recorder"""
+    import json
+    import subprocess
+    from .. import core
+    p = subprocess.run([core.PY, "-B", "-m", "vlib.checks.c08", json.dumps(hist), str(seed)], cwd=cwd,
+                       env=core.worker_env(), capture_output=True, timeout=600)
+    try:
+        return json.loads(p.stdout.decode().strip().splitlines()[-1])
+    except Exception:  # noqa
+        return {"crash": p.stderr.decode("utf-8", "replace")[-600:]}
+
+
+def cold_histories(rec, shard):
+    """COLD-START histories: in a fresh interpreter the FIRST thing a key space sees is a refusal (a name that belongs
+    to another key space), then the same name is used where it belongs, in both directions.  Whatever the refusal
+    leaves behind (a memo of failed look-ups, a half-initialised table, a class that has not produced an object yet)
+    must not change the second result.  The warm enumeration above cannot reach these states: there every key space
+    has served hundreds of valid requests before its first refusal."""
+    cases = all_cases()
+    cross = [c for c in cases if c[0] == "cross"]
+    for j in range(COLD[rec.tier]):
+        r = rec.rng("cold", shard, j)
+        c = r.choice(cross)
+        name = c[2]
+        spaces = [sp for sp, t in R.SPACES.items() if name in t and name != "suit-delegation"]
+        if not spaces:
+            continue
+        sp = r.choice(spaces)
+        hist = [list(c)] + r.choice([[["forward", sp, name], ["backward", sp, name]],
+                                     [["backward", sp, name], ["forward", sp, name]]])
+        if r.random() < 0.3:
+            c2 = r.choice(cross)
+            hist.insert(1, list(c2))
+        res = _cold_run(hist, rec.seed, rec.tmpdir())
+        rec.count("cold-start-histories")
+        rec.case("cold/" + repr(hist), True)
+        if "crash" in res:
+            rec.inconclusive.append("cold-start history crashed: " + res["crash"][-300:])
+            continue
+        for v in res.get("violations", []):
+            rec.violation("cold-start:" + v["mechanism"], f"in a fresh interpreter after the refusal {hist[0]}: "
+                          + v["what"], {"kind": "cold", "history": hist})
+        rec.count("cold-start-refusals-first", res.get("counters", {}).get("cases:cross-refused-first", 0))
 
 
 def inplace_edit_then_reenumerate(rec):
@@ -460,7 +510,11 @@ def tags_parse(rec, signed, encrypted):
 
 def replay(rec, case):
     r = common.case_rng(rec.seed, ID, 0)
-    if case["kind"] == "tags":
+    if case["kind"] == "cold":
+        res = _cold_run(case["history"], rec.seed, rec.tmpdir())
+        for v in res.get("violations", []):
+            rec.violation("cold-start:" + v["mechanism"], v["what"], case)
+    elif case["kind"] == "tags":
         tags(rec)
     elif case["kind"] == "cross":
         for _ in range(6):
@@ -499,3 +553,27 @@ def canaries(rec):
     out.append(("wrong-tagged COSE_Encrypt shown as a structure is noticed", _rendered_as_structure(
         {"x": [{"suit-parameter-encryption-info": {"COSE_Encrypt_Tagged": {}}}]}, 96)))
     return out
+
+
+def _cold_main():
+    import json
+    import os
+    import sys
+    from .. import core
+    hist, seed = json.loads(sys.argv[1]), int(sys.argv[2])
+    rec = core.Rec(ID, core.tier(), seed, -3, 1)
+    os.chdir(rec.tmpdir())
+    try:
+        for i, c in enumerate(hist):
+            before = rec.counters.get("cross-rejected:" + "x", 0)
+            run_one(rec, tuple(c), common.case_rng(seed, ID, f"cold{i}"))
+            if i == 0 and any(k.startswith("cross-rejected:") for k in rec.counters):
+                rec.count("cases:cross-refused-first")
+    finally:
+        os.chdir("/")
+        rec.cleanup()
+    print(json.dumps(rec.dump(), default=str))
+
+
+if __name__ == "__main__":
+    _cold_main()
